@@ -12,8 +12,8 @@ CONSTANTS
   MaxLost = 1
   MaxBad = 1
   MaxQueries = 2
-  CacheSetBeforeInsert = TRUE
-  CacheKeyIgnoresType = TRUE
+  CacheSetBeforeInsert = FALSE
+  CacheKeyIgnoresType = FALSE
   ReaderFiltersType = TRUE
   Guided = TRUE
   ExportView = TRUE
